@@ -41,7 +41,7 @@ pub const PROGS: [(&str, &str); 8] = [
     ("dup", "(def (Report (one 1)) (c1 1)) (when true (:= Report.one c1) (report))"),
     ("dup", "(def (Report (two 2) (three 3)) (c2 2)) (when true (:= Report.two c2) (report))"),
     ("bad", "(def (Report (x 0))) (when true (:= Report.x (+ 1)))"),
-    ("delta", "(def (Report (volatile m +infinity)) (a 1) (b 2) (c 3))
+    ("delta", "(def (Report (volatile m +infinity)) (a 1) (b 2) (c 3) (Reported 4))
         (when true (:= Report.m (min Report.m Flow.rtt_sample_us)) (:= Rate (* a b)) (fallthrough))
         (when (> Micros c) (report) (:= Micros 0))"),
     // the same text as alpha under another name: two compilations, two uids, one image
@@ -49,10 +49,10 @@ pub const PROGS: [(&str, &str); 8] = [
 ];
 
 /// names whose lookup result is part of a program's descriptor
-pub const PROBE_NAMES: [&str; 24] = [
+pub const PROBE_NAMES: [&str; 25] = [
     "Report.acked", "Report.rtt", "ctl", "vctl", "loc", "Report.loss", "Report.sacked", "Report.inflight", "thresh",
     "Report.x", "k", "Report.one", "c1", "Report.two", "Report.three", "c2", "Report.m", "a", "b", "c",
-    "Cwnd", "Rate", "Micros", "Ack.bytes_acked",
+    "Cwnd", "Rate", "Micros", "Ack.bytes_acked", "Reported",
 ];
 pub const EXTRA_FIELD_NAMES: [&str; 6] = ["__eventFlag", "__shouldReport", "nosuch", "Flow.was_timeout", "__x", ""];
 
@@ -75,7 +75,7 @@ pub enum Sym {
 pub enum UidRef { P(usize), X(u32) }
 
 #[derive(Clone, Debug)]
-pub enum REv { D(u8, Vec<Sym>), E, S }
+pub enum REv { D(u64, Vec<Sym>), E, S }
 
 pub struct Ctx {
     pub probe: Option<Scope>,                   // a scope with 16 report variables, to read report values back
@@ -119,9 +119,9 @@ fn encode_sym(ctx: &Ctx, s: &Sym) -> Vec<u8> {
 }
 
 impl Ipc for RtIpc {
-    type Addr = u8;
+    type Addr = u64;
     fn name() -> String { "script".into() }
-    fn send(&self, msg: &[u8], to: &u8) -> portus::Result<()> {
+    fn send(&self, msg: &[u8], to: &u64) -> portus::Result<()> {
         let mut c = self.ctx.lock().unwrap();
         if c.booting {
             if msg.len() >= 20 && msg[0] == 2 && msg[1] == 0 {
@@ -165,7 +165,7 @@ impl Ipc for RtIpc {
         }
         Ok(())
     }
-    fn recv(&self, msg: &mut [u8]) -> portus::Result<(usize, u8)> {
+    fn recv(&self, msg: &mut [u8]) -> portus::Result<(usize, u64)> {
         let mut c = self.ctx.lock().unwrap();
         if c.stopped { c.recv_after_stop += 1; }
         if !c.boot_done {
@@ -447,7 +447,7 @@ pub fn parse_case(arg: &str) -> Option<Case> {
             else if let Some(rest) = it.strip_prefix('D') {
                 let (a, ms) = rest.split_once(':')?;
                 let syms: Vec<Sym> = if ms.is_empty() { vec![] } else { ms.split('+').map(parse_sym).collect::<Option<Vec<_>>>()? };
-                events.push(REv::D(u8::from_str_radix(a, 16).ok()?, syms));
+                events.push(REv::D(u64::from_str_radix(a, 16).ok()?, syms));
             } else if it.is_empty() { continue; } else { return None; }
         }
     }
@@ -566,18 +566,37 @@ pub fn reg_str(r: &portus::lang::Reg) -> String {
     }
 }
 pub fn prog_descriptors() -> String {
-    // progid:name:ok:entry,entry   entry = name=reg
+    // progid:name:ok:<source text in hex>:entry,entry   entry = name=reg
     let mut out = vec![];
     for (i, (name, src)) in PROGS.iter().enumerate() {
         match catch(|| portus::lang::compile_and_serialize(src.as_bytes(), &[])) {
             Some(Ok((_, sc))) => {
                 let ents: Vec<String> = PROBE_NAMES.iter().chain(EXTRA_FIELD_NAMES.iter()).filter_map(|n| sc.get(n).map(|r| format!("{}={}", n, reg_str(r)))).collect();
-                out.push(format!("{}:{}:1:{}", i, name, ents.join(",")));
+                out.push(format!("{}:{}:1:{}:{}", i, name, hex(src.as_bytes()), ents.join(",")));
             }
-            _ => out.push(format!("{}:{}:0:", i, name)),
+            _ => out.push(format!("{}:{}:0:{}:", i, name, hex(src.as_bytes()))),
         }
     }
     out.join(" ")
+}
+
+/// Distinct datapath addresses that a table keyed by a digest of the address would confuse:
+/// two that collide in the low 32 bits of the standard hasher, two that agree modulo 2^32,
+/// two that agree modulo 2^8.  (The property is about addresses, not about their digests.)
+pub fn colliding_addrs() -> &'static [u64; 6] {
+    use std::hash::{Hash, Hasher};
+    static CELL: std::sync::OnceLock<[u64; 6]> = std::sync::OnceLock::new();
+    CELL.get_or_init(|| {
+        let mut seen: HashMap<u32, u64> = HashMap::new();
+        let mut pair = (1u64 << 40, (1u64 << 40) + 1);
+        for a in 0x1_0000u64..0x40_0000 {
+            let mut h = std::collections::hash_map::DefaultHasher::new();
+            a.hash(&mut h);
+            let d = h.finish() as u32;
+            if let Some(b) = seen.insert(d, a) { pair = (b, a); break; }
+        }
+        [pair.0, pair.1, 5, 5 + (1u64 << 32), 0x107, 0x207]
+    })
 }
 
 // ------------------------------------------------------------------ generators
@@ -664,11 +683,11 @@ pub fn gen_case(r: &mut Rng, adversarial: bool, faults: bool) -> String {
     let beh = format!("new={} rep={}", if newc.is_empty() { "-".to_string() } else { newc.join("+") }, if repc.is_empty() { "-".to_string() } else { repc.join("+") });
     // events
     let nev = r.range(2, 16);
-    let addrs = [1u8, 2, 3];
+    let addrs: Vec<u64> = if adversarial && r.chance(1, 3) { colliding_addrs().to_vec() } else { vec![1u64, 2, 3] };
     let sids = [1u32, 2, 3, 0x10];
     let algnames = ["-", "-", "reno", "renoX", LONG63, LONG63, "cubic", "dflt", "ren", "renoXY", "zzz", "", "renoreno0123456789012345678901234567890123456789012345678901234", &LONG63[..62]];
     let mut evs = vec![];
-    let mut live: Vec<(u8, u32)> = vec![];
+    let mut live: Vec<(u64, u32)> = vec![];
     let mut sends_guess = 0usize;
     for _ in 0..nev {
         if r.chance(1, 20) { evs.push("E".to_string()); continue; }
